@@ -36,6 +36,11 @@ SeqsOK(t) ==
                        /\ t.xnl[i] < t.xk[i] /\ t.xk[i] < t.xnh[i]
   /\ \A i \in 1..(t.n - 1) : t.xnh[i] < t.xnl[i + 1]
   /\ t.calc \in {"range", "invrange"} => TableMonotone(t)
+  \* builder realisations: the record's prime index must be the one the spec derives from the
+  \* grid DEFINITION and the user's first scaled energy E' (never from what the builder stored)
+  /\ t.eplo <= t.ep /\ t.ep <= t.ephi
+  /\ t.hasep => (Cardinality(PrimeCandidates(t)) = 1 /\ t.p = ExpectedPrime(t))
+  /\ ~t.hasep => t.pb = t.p
 
 QueryFails(t, i) ==
   LET q == t.qs[i] IN
@@ -44,7 +49,7 @@ QueryFails(t, i) ==
 
 TableFails(t) ==
   (UNION {QueryFails(t, i) : i \in DOMAIN t.qs})
-  \cup (IF t.pu # t.p THEN {<<0, "BuilderPrime", <<t.pu, t.p>>>>} ELSE {})
+  \cup (IF t.pb # t.p THEN {<<0, "BuilderPrime", <<"stored", t.pb, "expected", t.p>>>>} ELSE {})
   \cup (IF t.calc \in {"range", "invrange"}
         THEN {<<b[1], "Monotone", <<t.qs[b[1]], t.qs[b[2]]>>>> : b \in MonotoneBreaks(t)}
         ELSE {})
